@@ -41,7 +41,9 @@ def stacking_case(draw):
                                   min_size=L * N, max_size=L * N)) for L in lens]
     labels_seed = draw(st.integers(0, 2 ** 16))
     return {"W": W, "N": N, "lens": lens, "seed": seed, "special_rate": special_rate, "layout": layout,
-            "explicit_bits": explicit, "labels_seed": labels_seed, "reuse_buffers": draw(st.booleans())}
+            "explicit_bits": explicit, "labels_seed": labels_seed, "reuse_buffers": draw(st.booleans()),
+            "as_views": draw(st.one_of(st.none(), st.none(), st.permutations(list(range(6))))),
+            "narrow_first": draw(st.sampled_from([None, None, None, "float32", "float16"]))}
 
 
 def build_series(case):
@@ -71,6 +73,23 @@ def build_series(case):
         if lay == "C" and case.get("reuse_buffers"):
             a = buffers.reuse(f"C10.series.{si}", a)     # the same array object as in earlier cases, refilled in place
         out.append(a)
+    if case.get("as_views") and case["layout"] == "C" and len(out) >= 2:
+        # the caller cut one recording into pieces: the series are row-slice views of ONE owning array, handed over in
+        # another order than they lie in memory
+        order = [i for i in case["as_views"] if i < len(out)]
+        order = order + [i for i in range(len(out)) if i not in order]
+        mem = [out[i] for i in order]
+        owner = np.vstack(mem)
+        views, pos = {}, 0
+        for i, a in zip(order, mem):
+            views[i] = owner[pos:pos + len(a)]
+            pos += len(a)
+        out = [views[i] for i in range(len(out))]
+    if case.get("narrow_first") and len(out) >= 2 and case["layout"] == "C":
+        # mixed precision: the first series is stored as float32 / float16 (exactly representable values), the others as float64
+        first = np.nan_to_num(out[0], nan=0.0, posinf=0.0, neginf=0.0)
+        first = np.clip(np.round(first), -1000, 1000).astype(case["narrow_first"])
+        out[0] = first
     return out
 
 
@@ -78,7 +97,7 @@ def expected_stack(a, W):
     T, N = a.shape
     rows = T - W + 1
     exp = np.empty((rows, N * W), dtype=np.uint64)
-    bits = np.ascontiguousarray(a).view(np.uint64)
+    bits = np.ascontiguousarray(a, dtype=np.float64).view(np.uint64)     # a narrower float series: its values, as doubles
     for i in range(rows):
         for j in range(W):
             exp[i, j * N:(j + 1) * N] = bits[i + j]
@@ -89,8 +108,8 @@ def execute(case, t):
     dp = _dp()
     W, N = case["W"], case["N"]
     series = build_series(case)
-    before = [np.ascontiguousarray(s).view(np.uint64).copy() for s in series]
-    if case.get("reuse_buffers") and all(s.flags.writeable for s in series):
+    before = [np.ascontiguousarray(s, dtype=np.float64).view(np.uint64).copy() for s in series]
+    if case.get("reuse_buffers") and not case.get("as_views") and not case.get("narrow_first") and all(s.flags.writeable for s in series):
         # earlier calls on the very same array objects: another window size, and other contents (refilled afterwards)
         saved = [s.copy() for s in series]
         try:
@@ -131,7 +150,7 @@ def execute(case, t):
         raise Violation(f"multi-series stacking differs from the concatenation of the individual stackings "
                         f"(lens={case['lens']}, W={W}, N={N})")
     for s, b in zip(series, before):
-        if not np.array_equal(np.ascontiguousarray(s).view(np.uint64), b):
+        if not np.array_equal(np.ascontiguousarray(s, dtype=np.float64).view(np.uint64), b):
             raise Violation("stacking modified its input series")
     # split + pad round trip on a label list as long as the joint stack
     stacked_lens = [L - W + 1 for L in case["lens"]]
@@ -160,6 +179,10 @@ def execute(case, t):
         raise Violation("concatenated inner parts of the split+padded lists differ from the input label list")
     t.cls(f"layout_{case['layout']}")
     t.cls(f"series_{len(series)}")
+    if case.get("as_views") and case["layout"] == "C" and len(series) >= 2:
+        t.cls("series_are_views_of_one_array")
+    if case.get("narrow_first") and len(series) >= 2 and case["layout"] == "C":
+        t.cls("first_series_narrower_dtype")
     if W == 1:
         t.cls("W=1")
     if any(L == W for L in case["lens"]):
